@@ -233,6 +233,9 @@ def _w_run(op, root, up_types):
         upgrade_1_0_to_1_1_inplace(root, kt, dt, gt, 'L2', 'L2')
 
 
+_MODSEEN, _MODFILES = set(), set()     # files of the modules imported so far (grows only)
+
+
 def _w_measure_leaves(root, op, res):
     del _EVENTS[:]
     mods0 = set(sys.modules)
@@ -262,6 +265,13 @@ def _w_case(req):
         import importlib
         importlib.invalidate_caches()
     mods1 = set(sys.modules)
+    for name in mods1 - _MODSEEN:
+        m = sys.modules.get(name)
+        for f in (getattr(m, '__file__', None), getattr(m, '__cached__', None)):
+            if isinstance(f, str):
+                _MODFILES.add(os.path.realpath(f))
+    _MODSEEN.update(mods1)
+    modfiles = set(_MODFILES)
     _ACTIVE[0] = True
     try:
         _w_run(op, root, req.get('up_types') or [None, None, None])
@@ -277,7 +287,11 @@ def _w_case(req):
         except ValueError:
             pass
         os.chdir(base)
-    res['events'] = [[k, _rel(p, root), d] for k, p, d in _EVENTS]
+    # opening (for reading) the source or byte-code file of a module that was ALREADY imported before the run is what
+    # linecache / traceback / warnings do: interpreter machinery, reported separately, never an effect of the contents
+    res['events'] = [['Machinery' if (k == 'Read' and p is not None and
+                                      os.path.realpath(os.path.join(os.getcwd(), p)) in modfiles) else k,
+                      _rel(p, root), d] for k, p, d in _EVENTS]
     del _EVENTS[:]
     if op == 'load':
         _w_measure_leaves(root, op, res)      # after the load, so that the load itself is seen doing the first import
@@ -286,7 +300,10 @@ def _w_case(req):
 
 def _worker_main():
     import logging
+    import warnings
     logging.disable(logging.CRITICAL)
+    if not os.environ.get('C16_SHOW_WARNINGS'):
+        warnings.simplefilter('ignore')    # showing a warning makes the interpreter read library source files (linecache)
     out = os.fdopen(os.dup(1), 'w')
     os.dup2(2, 1)                      # anything the code under test prints goes to stderr
     inp = os.fdopen(os.dup(0), 'r')    # private copies: evaluated content may close sys.stdin (exit()) or print
@@ -344,6 +361,9 @@ TRUSTED = ['CPython audit events (PEP 578) are raised for compile/exec/import/op
            'has them as section variables of function type; on every case the harness calls each of them directly under '
            'the same audit hook and fails if any of them raises an effect event',
            'os.listdir returns plain entry names (no separator, not . or ..)']
+NOTES = ['an observation whose only suspicious events can be one-time side effects of the interpreter (lazy import of a module '
+         'whose name occurs nowhere in the dataset, reading/unmarshalling/executing library files for it) is not judged: the '
+         'case is run again in the same interpreter and the second observation is used (recorded as rerun_after)']
 ASSUMPTIONS = ['kapture_from_dir is called with its defaults (no skip_list, no tar handlers, no pairs file)',
                'upgrade_1_0_to_1_1_inplace is called the way tools/kapture_download_dataset.py calls it (all three feature '
                'types None, taken from the name field of the files) or with plain names as types',
@@ -559,6 +579,11 @@ class _Worker:
             broken = dict(full[0])
             broken[p] = broken[p].rstrip('\n') + '\nx, y\n!, ?, ?, ?, ?, ?, ?, ?, ?\n'
             variants.append(('load', (broken, full[1]), None))
+            norows = dict(full[0]) if not os.environ.get('C16_SHOW_WARNINGS') else None
+            if norows is None:
+                continue
+            norows[p] = '\n'.join(ln for ln in full[0][p].split('\n') if ln.startswith('#')) + '\n'
+            variants.append(('load', (norows, full[1]), None))
         for p in sorted(v10[0]):
             broken = dict(v10[0])
             broken[p] = broken[p].rstrip('\n') + '\nx, y\n'
@@ -629,7 +654,9 @@ P_DTYPE_NEAR = [('dtype-near', x) for x in (
     'numpy.np.uint8', 'np.numpy.uint8', 'nP.float32', 'np .float32', 'np. float32', 'float32.', '.float32',
     'float 32', "'float32'", '"uint8"', '<f4', 'f4', '|u1', 'dtype', 'type', 'None', 'True', '0', '4', 'uint8;',
     'uint8#', 'int0', 'intp', 'uint', 'longlong', 'np.float32.__name__', 'float32()', 'numpy.float32(1)',
-    'np.uint8 ', 'floats', 'uint', 'int33', 'uint128', 'numpyfloat32', 'npfloat32')]
+    'np.uint8 ', 'floats', 'uint', 'int33', 'uint128', 'numpyfloat32', 'npfloat32',
+    "dtype('float32')", "dtype('<f4')", "np.dtype('uint8')", "numpy.dtype('float64')", 'dtype(float)', "dtype('f4' or 'f8')",
+    'float32(0)', 'np.float32()', 'type(float32)', 'float32.dtype', "dtype('uint8').type")]
 P_PATH = [('path', x) for x in ('../../../outside', '/etc/passwd', '..', '.', '../x', 'a/../../b', 'C:\\x\\y', '~/x',
                                 'sub/dir', '%s' % MARKER, '/dev/null', 'a\\b', './x')]
 P_NUM = [('num', x) for x in ('9' * 5000, '1e999', '-1e999', '-0', '0x10', '1_000', '１２', 'nan', 'inf', '-inf', '1.5',
@@ -649,9 +676,11 @@ P_DOTTED = ([('dotted-stdlib', m + '.' + a) for m, a in zip(DOTTED_MODULES, ['Li
             + [('dotted-known', x) for x in ('os.path.join', 'numpy.float32', 'kapture.Sensor', 'kapture.core.Sensors.Camera',
                                             'os.system', 'builtins.eval', 'a.b', 'a.b.c', 'x.', 'a..b', 'a.b/c.jpg')]
             + [('dotted-dataset', x) for x in ('sensors.Lidar', 'reconstruction.keypoints.SIFT', PLANTED + '.Sensor')])
-P_GENERAL = P_CODE + P_PATH + P_NUM + P_FMT + P_MISC + P_DTYPE_OK[:6] + P_DTYPE_NEAR[:6]
+P_CALL = [('call', x) for x in ("dtype('f4')", 'float(1)', 'Sensor()', "int('4')", 'str(1)', 'len(())')]
+P_GENERAL = P_CODE + P_PATH + P_NUM + P_FMT + P_MISC + P_DTYPE_OK[:6] + P_DTYPE_NEAR[:6] + P_CALL
 P_DTYPE_ALL = P_DTYPE_OK + P_DTYPE_NEAR + P_CODE + P_PATH[:4] + P_NUM[:4] + P_FMT[:6] + P_MISC[:6]
-P_NAME = P_PATH + P_CODE[:3] + [('empty', ''), ('name', 'SIFT'), ('name', 'r2d2_WASF-N8_20k'), ('name', 'a.b'),
+P_SIBLING = [('sibling', x) for x in ('../../../ds_v2', 'x/../../../../ds2', '../../../ds.bak/k', '../../../dsx')]
+P_NAME = P_SIBLING + P_PATH + P_CODE[:3] + [('empty', ''), ('name', 'SIFT'), ('name', 'r2d2_WASF-N8_20k'), ('name', 'a.b'),
                                 ('name', '..x'), ('name', 'x..'), ('name', '...'), ('nul', 'a\x00b'), ('name', 'cam0'),
                                 ('unicode', 'é'), ('space', 'a b'), ('name', 'keypoints.txt'), ('name', 'SIFT/'),
                                 ('name', '/SIFT'), ('name', 'a//b'), ('name', '\\')]
@@ -758,12 +787,12 @@ def gen_cases(rng, tier):
     # B. every field of every file
     for tgt in _positions(full[0]):
         for pcls, pl in rng.sample(P_GENERAL, 5 if big else 1):
-            if big or rng.random() < 0.4:
+            if big or rng.random() < 0.25:
                 var, tree = _variant_for(rng, full, tgt[0])
                 mk('load', tree, tgt, pcls, pl, var)
     for tgt in _positions(v10[0]):
         for pcls, pl in rng.sample(P_GENERAL, 3 if big else 1):
-            if big or rng.random() < 0.25:
+            if big or rng.random() < 0.2:
                 mk('upgrade', v10, tgt, pcls, pl, 'v10', rng.choice([[None, None, None], ['k', 'd', 'g']]))
     # G. dotted names (module.Name) in EVERY field of every file, rotating through the candidates
     dotted = [x for x in P_DOTTED if x[0] != 'dotted-dataset' or big]
@@ -775,13 +804,13 @@ def gen_cases(rng, tier):
             var, tree = _variant_for(rng, full, tgt[0], 0.9)
             mk('load', tree, tgt, pcls, pl, var)
     for i, tgt in enumerate(_positions(v10[0])):
-        if big or tgt[0] == SENSORS or rng.random() < 0.4:
+        if big or tgt[0] == SENSORS or rng.random() < 0.25:
             pcls, pl = (('dotted-stdlib', P_DOTTED[i % len(DOTTED_MODULES)][1]) if i % 2 == 0 else dotted[rng.randrange(len(dotted))])
             mk('upgrade', v10 if rng.random() < 0.3 else _subset(v10, _SENS if tgt[0].startswith('sensors/') else _FEATV), tgt,
                pcls, pl, 'v10', [None, None, None])
     # the dataset ships a python file and its folder is importable (cd dataset; python ...): module names of the dataset
     for i, tgt in enumerate(_positions(full[0])):
-        if big or (tgt[0] == SENSORS and tgt[2] <= 3) or rng.random() < 0.06:
+        if big or (tgt[0] == SENSORS and tgt[2] == 2) or rng.random() < 0.06:
             for pl in ((PLANTED + '.Sensor', 'sensors.Lidar') if (big or (tgt[0] == SENSORS and tgt[2] == 2)) else (PLANTED + '.Sensor',)):
                 var, tree = _variant_for(rng, full, tgt[0], 0.9)
                 mk('load', (tree[0], list(tree[1]) + [PLANTED + '.py']), tgt, 'dotted-dataset', pl, var + '+py')
@@ -803,7 +832,7 @@ def gen_cases(rng, tier):
     # D. the name field of the 1.0 descriptor files becomes a folder name during the upgrade
     for tgt0 in dt_up:
         for pcls, pl in P_NAME:
-            if big or rng.random() < 0.45:
+            if big or pcls == 'sibling' or rng.random() < 0.45:
                 mk('upgrade', v10, (tgt0[0], 0, 0), pcls, pl, 'v10', [None, None, None])
         for pcls, pl in rng.sample(P_NAME, 3):
             mk('upgrade', v10, (tgt0[0], 0, 0), pcls, pl, 'v10', ['k', 'd', 'g'])
@@ -845,7 +874,7 @@ def gen_cases(rng, tier):
                                     'payload': pl, 'variant': 'full+types', 'note': 'several feature types'}})
     # F. several fields at once (malformed stream)
     pos_full, pos_v10 = _positions(full[0]), _positions(v10[0])
-    for _ in range(300 if big else 30):
+    for _ in range(300 if big else 20):
         op = rng.choice(['load', 'load', 'upgrade'])
         base, pos = (full, pos_full) if op == 'load' else (v10, pos_v10)
         files = base[0]
@@ -941,7 +970,7 @@ def _sync(base, want):
     _DISK[base] = dict(want)
 
 
-def run_impl(case, ctx):
+def _run_once(case, ctx):
     base = os.path.join(ctx['tmp'], 'c')
     root = os.path.join(base, 'ds')
     before = _desired(case)
@@ -963,12 +992,15 @@ def run_impl(case, ctx):
     marker = os.path.lexists(os.path.join(base, MARKER)) or os.path.lexists(os.path.join(root, MARKER))
     changed = sorted(k for k in set(before) | set(after) if before.get(k) != after.get(k))
     changed_outside = [k for k in changed if not (k == 'ds/' or k.startswith('ds/'))]
-    effects, seen, dir_events = [], set(), []
+    effects, seen, dir_events, machinery = [], set(), [], []
     for kind, rel, detail in res['events']:
         if kind in ('Read', 'Write', 'Delete'):
             key = (kind, rel)
         elif kind in _FORBIDDEN:
             key = (kind, None)
+        elif kind == 'Machinery':
+            machinery.append(rel)
+            continue
         else:
             dir_events.append([kind, rel, detail])
             continue
@@ -980,12 +1012,85 @@ def run_impl(case, ctx):
         # the import machinery raises no "import" event for importlib.import_module: the growth of sys.modules does
         effects.append(['Import', None, 'sys.modules grew: ' + ','.join(new_modules[:4])])
     obs = {'outcome': res['outcome'], 'exc': res['exc'], 'effects': effects, 'dir_events': dir_events,
-           'new_modules': new_modules, 'leaf_modules': res.get('leaf_modules', []),
+           'new_modules': new_modules, 'leaf_modules': res.get('leaf_modules', []), 'machinery': machinery[:10],
            'leaf_events': res['leaf_events'], 'marker': marker, 'changed': changed[:40],
            'changed_outside': changed_outside[:10], 'leaves': res['leaves']}
-    if marker or new_modules or obs['leaf_modules'] or any(k in ('Spawn', 'Import', 'Net') or
-                     (k == 'Eval' and d.startswith('compile:') and not re.fullmatch(r'compile:[A-Za-z0-9_.]*', d))
-                     for k, _, d in effects):
+    return obs
+
+
+_DOTTED_RE = re.compile(r'[A-Za-z_][A-Za-z0-9_]*(?:\.[A-Za-z_][A-Za-z0-9_]*)*')
+
+
+def _content_names(case):
+    """every dotted name occurring in the text files of the case (and the stems of shipped python files), with all
+    its prefixes: the module names a loader could possibly have taken from the contents"""
+    names = set()
+    for text in case['files'].values():
+        for m in _DOTTED_RE.findall(text):
+            parts = m.split('.')
+            for i in range(1, len(parts) + 1):
+                names.add('.'.join(parts[:i]))
+    for b in case['bins']:
+        if b.endswith('.py'):
+            names.add(os.path.basename(b)[:-3])
+    return names
+
+
+def _only_environmental(case, obs):
+    """True when everything suspicious in the observation can be a ONE-TIME side effect of the interpreter or of a
+    library using one of its own parts for the first time (lazy import of a module whose name does not occur in the
+    dataset, reading / unmarshalling / executing library files for it) rather than something the contents caused.
+    Such an observation is not judged: the case is run again in the same interpreter, where one-time effects are
+    gone while anything caused by the contents (evaluation, opening a path, spawning) happens again; an import of a
+    module NAMED IN THE DATASET is never environmental."""
+    if obs.get('died') or obs['marker'] or obs['changed_outside']:
+        return False
+    suspicious = False
+    fields = None
+    names = None
+    for mod in list(obs.get('new_modules', [])) + list(obs.get('leaf_modules', [])):
+        names = _content_names(case) if names is None else names
+        if mod in names:
+            return False
+        suspicious = True
+    for kind, rel, detail in obs['effects'] + [[k, r, d] for k, r, d in obs['leaf_events']]:
+        if kind in ('Spawn', 'Net'):
+            return False
+        if kind == 'Import':
+            names = _content_names(case) if names is None else names
+            mod = detail if not detail.startswith('sys.modules grew') else None
+            if mod is not None and mod in names:
+                return False
+            suspicious = True
+        elif kind == 'Eval':
+            if detail.startswith('compile:'):
+                src = detail[len('compile:'):]
+                if fields is None:
+                    fields = {x[:80] for lv in [obs['leaves']] if lv for t in lv['tables'].values() for r in t for x in r}
+                if src in fields or not src.strip():
+                    return False        # a field of the dataset was compiled
+            suspicious = True
+        elif kind == 'Read' and _outside(rel):
+            if not (rel or '').endswith(('.py', '.pyc', '.so', '.pyi', '.pth')):
+                return False
+            suspicious = True
+    return suspicious
+
+
+def run_impl(case, ctx):
+    obs = _run_once(case, ctx)
+    w = _WORKER.get(ctx['tmp'])
+    if w is not None and w.proc is not None and _only_environmental(case, obs):
+        first = {'effects': [e for e in obs['effects'] if e[0] not in ('Write', 'Delete') and not (e[0] == 'Read' and not _outside(e[1]))],
+                 'new_modules': obs.get('new_modules'), 'leaf_modules': obs.get('leaf_modules'), 'leaf_events': obs['leaf_events'][:6]}
+        obs = _run_once(case, ctx)          # same interpreter: what was a first-use side effect does not come back
+        obs['rerun_after'] = first
+    if obs.get('died'):
+        return obs
+    if w is not None and (obs['marker'] or obs.get('new_modules') or obs.get('leaf_modules') or any(
+            k in ('Spawn', 'Import', 'Net') or
+            (k == 'Eval' and d.startswith('compile:') and not re.fullmatch(r'compile:[A-Za-z0-9_.]*', d))
+            for k, _, d in obs['effects'] + obs['leaf_events'])):
         w.stop()          # whatever ran may have changed the interpreter state: next case gets a fresh worker
     return obs
 
@@ -1042,8 +1147,6 @@ def oracle(case, obs):
     for kind, rel, detail in obs['effects']:
         if kind in _FORBIDDEN:
             return 'forbidden effect %s (%s) while %s' % (kind, detail.split(':')[0], 'loading' if case['op'] == 'load' else 'upgrading')
-    if obs['leaf_events']:
-        return 'a leaf converter has an effect: %s' % obs['leaf_events'][0][:2]
     for kind, rel, detail in obs['effects'] + obs['dir_events']:
         if kind == 'HookError':
             return 'audit hook failed: ' + str(detail)
@@ -1053,6 +1156,8 @@ def oracle(case, obs):
             return 'accesses a path outside the dataset directory (%s %s)' % (kind, detail)
         if case['op'] == 'load' and kind in ('Write', 'Delete', 'WriteDir', 'DeleteDir'):
             return 'loading modifies the dataset (%s %s)' % (kind, rel)
+    if obs['leaf_events']:
+        return 'a leaf converter has an effect: %s' % obs['leaf_events'][0][:2]
     if obs['changed_outside']:
         return 'something outside the dataset directory changed on disk: ' + obs['changed_outside'][0]
     if case['op'] == 'load' and obs['changed']:
@@ -1123,7 +1228,9 @@ def classify(case, obs):
     kind = 'none' if tf is None else os.path.basename(tf)[:-4]
     t = case['label'].get('target')
     col = '' if not t else ('/ver' if t[1] == 'ver' else '/c%d' % t[2])
-    return '%s/%s%s/%s/%s' % (case['op'], kind, col if kind in FEAT else '', case['label']['pclass'].split('-')[0], obs['outcome'])
+    extra = ('+machinery-reads' if obs.get('machinery') else '') + ('+rerun' if obs.get('rerun_after') else '')
+    return '%s/%s%s/%s/%s%s' % (case['op'], kind, col if kind in FEAT else '', case['label']['pclass'].split('-')[0],
+                                obs['outcome'], extra)
 
 
 def describe(case, obs):
